@@ -247,3 +247,7 @@ package route
 // ErrCaughtPanic carries none, so the recovered value must be turned into one).
 //@ contract route.(*Router).panicCatcher$lit2 props C28 havoc
 //@   requires r != nil
+
+// ---- C35: the environment cache is consulted by every request goroutine
+//@ guarded_by route.environmentCache.mutex: items
+//@ lockdiscipline route.environmentCache mutex props C35 wheld: addItem
